@@ -25,6 +25,10 @@ type C06Case struct {
 	MainWrap int   `json:"mainwrap"` // how the unsandboxed template holds the include
 	IncOpts  int   `json:"incopts"`  // options on the sandboxed include itself: bit0 with, bit1 only
 	Custom   bool  `json:"custom"`   // harness policy type instead of DefaultSecurityPolicy
+	// second arm (checkC06Named): an explicit occurrence and the names the policy refuses,
+	// "f:<name>" for a function, "|<name>" for a filter; built-in names included
+	Occ    string   `json:"occ,omitempty"`
+	Refuse []string `json:"refuse,omitempty"`
 }
 
 // occurrence templates: F is replaced by the filter application "|forbid", G(x) by
@@ -139,7 +143,9 @@ func c06Carry(k, d int, b string, tm map[string]string) string {
 func c06Build(c C06Case, sandboxed bool) (map[string]string, string) {
 	tm := map[string]string{"leaf": "(leaf {{ v }})"}
 	var occ string
-	if c.Fn {
+	if c.Occ != "" {
+		occ = c.Occ
+	} else if c.Fn {
 		occ = c06FuncPos[c.Pos%len(c06FuncPos)].src
 	} else {
 		occ = c06FilterPos[c.Pos%len(c06FilterPos)].src
@@ -301,6 +307,178 @@ func checkC06Outside(c C06Case) error {
 	return nil
 }
 
+// ---- second arm: built-in names and names shared by a filter and a function ---------------------
+
+// value-producing uses of built-in functions and filters (iter: the value can be looped over)
+var c06Builtins = []struct {
+	refuse, expr string
+	iter         bool
+}{
+	{"f:range", "range(1, 3)", true}, {"f:max", "max(1, y2)", false}, {"f:min", "min(3, y2)", false}, {"f:cycle", "cycle(xs, 1)", false}, {"f:merge", "merge(xs, [7])", true},
+	{"f:length", "length(xs)", false}, {"f:json_encode", "json_encode(xs)", false},
+	{"|upper", "x|upper", false}, {"|lower", "x|lower", false}, {"|join", "xs|join('-')", false}, {"|sort", "xs|sort", true}, {"|reverse", "xs|reverse", true}, {"|merge", "xs|merge([8])", true},
+	{"|keys", "mp|keys", true}, {"|length", "xs|length", false}, {"|first", "xs|first", false}, {"|last", "xs|last", false}, {"|default", "nul|default('d')", false}, {"|escape", "x|escape", false}, {"|e", "x|e", false},
+	{"|slice", "xs|slice(1)", true}, {"|split", "x|split('a')", true}, {"|batch", "xs|batch(2)", true}, {"|abs", "y2|abs", false}, {"|trim", "x|trim", false}, {"|replace", "x|replace({'a': 'b'})", false}, {"|capitalize", "x|capitalize", false},
+}
+
+// positions for a value expression V (iterV: only for iterable values)
+var c06ExprPos = []struct {
+	name, src string
+	iterOnly  bool
+}{
+	{"print", "{{ V }}", false}, {"print-joined", "{{ [V]|length }}", false}, {"if-cond", "{% if V %}a{% endif %}", false}, {"set-value", "{% set v = V %}{{ v is defined ? 'd' : 'u' }}", false},
+	{"for-seq", "{% for i in V %}{{ i is iterable ? 'it' : i }}{% endfor %}", true}, {"for-seq-key", "{% for k, i in V %}{{ k }}{% endfor %}", true}, {"for-seq-else", "{% for i in V %}a{% else %}e{% endfor %}", true},
+	{"ternary-branch", "{{ t ? V : 'n' }}", false}, {"filter-arg", "{{ nul|default(V) is defined ? 'd' : 'u' }}", false}, {"include-with-value", "{% include 'leaf' with {'v': 1, 'w': V} %}", false},
+	{"macro-arg", "{% macro mm(p) %}{{ p is defined ? 'd' : 'u' }}{% endmacro %}{{ mm(V) }}", false}, {"list-in", "{{ 1 in [V] ? 'y' : 'n' }}", false}, {"do-tag", "{% do V %}", false},
+	{"for-in-for", "{% for a in [1, 2] %}{% for i in V %}.{% endfor %}{% endfor %}", true}, {"apply-body", "{% apply upper %}{{ V is defined ? 'd' : 'u' }}{% endapply %}", false},
+}
+
+// a name that is a function and a filter at once, used in both orders
+var c06DualOccs = []string{
+	"{{ dual(x) }}{{ x|dual }}", "{{ x|dual }}{{ dual(x) }}", "{{ dual(x)|dual }}", "{{ dual(x|dual) }}", "{% if dual(t) %}{{ x|dual }}{% endif %}", "{% for i in dual(xs) %}{{ i|dual }}{% endfor %}",
+	"{{ merge(xs, [1])|join }}{{ xs|merge([2])|join }}", "{{ xs|merge([2])|join }}{{ merge(xs, [1])|join }}", "{{ merge(xs|merge([3]), [1])|join }}", "{% for i in merge(xs, [1]) %}{{ [i]|merge([0])|join }}{% endfor %}",
+}
+
+func c06NamedPolicy(c C06Case, allowAllNames bool) twig.SecurityPolicy {
+	p := twig.NewDefaultSecurityPolicy()
+	for _, f := range []string{"parent", "max", "min", "wrap", "mm", "dual", "merge", "range", "cycle", "length", "json_encode"} {
+		p.AllowedFunctions[f] = true
+	}
+	for i := 0; i < 4; i++ {
+		p.AllowedFunctions[fmt.Sprintf("cmn%d", i)] = true
+	}
+	for _, f := range []string{"spaceless", "dual", "merge", "batch", "split", "slice", "keys", "abs", "e", "escape", "replace", "capitalize", "sort", "reverse", "first", "last", "join", "length", "default", "upper", "lower", "trim"} {
+		p.AllowedFilters[f] = true
+	}
+	if !allowAllNames {
+		for _, r := range c.Refuse {
+			if strings.HasPrefix(r, "f:") {
+				delete(p.AllowedFunctions, r[2:])
+			} else {
+				delete(p.AllowedFilters, r[1:])
+			}
+		}
+	}
+	if c.Custom {
+		return customPolicy{p.AllowedFilters, p.AllowedFunctions}
+	}
+	return p
+}
+
+// checkC06Named: with the named function/filter refused by the policy, the sandboxed include
+// must fail with a security violation, produce no output and never run a refused spy; with the
+// name allowed the sandboxed render equals the unsandboxed one.
+func checkC06Named(c C06Case) (bool, error) {
+	// is the occurrence position evaluated at all in this arrangement? (measured with a spy)
+	probe := c
+	probe.Occ, probe.Refuse, probe.Pos, probe.Fn = "", nil, 0, false
+	if live, _ := checkC06Live(probe); !live {
+		return false, nil
+	}
+	tmU, _ := c06Build(c, false)
+	tmS, _ := c06Build(c, true)
+	ru, _ := c06Run(tmU, c06NamedPolicy(c, false))
+	if ru.Failed() {
+		return false, nil
+	}
+	rs, sp := c06Run(tmS, c06NamedPolicy(c, false))
+	if rs.Panic != "" {
+		return true, fmt.Errorf("sandboxed render panicked: %s; templates:%s", rs.Panic, showSources(tmS))
+	}
+	for _, r := range c.Refuse {
+		key := "|dual"
+		if strings.HasPrefix(r, "f:") {
+			key = "dual"
+		}
+		if strings.HasSuffix(r, "dual") && sp.Calls[key] > 0 {
+			return true, fmt.Errorf("the policy refuses %s but it ran %d time(s) inside the sandboxed include (calls %v); templates:%s", r, sp.Calls[key], sp.Log, showSources(tmS))
+		}
+	}
+	if rs.Err == "" {
+		return true, fmt.Errorf("the policy refuses %v, the sandboxed include uses it, but the render succeeded with output %s (unsandboxed %s); templates:%s", c.Refuse, q(rs.Out), q(ru.Out), showSources(tmS))
+	}
+	var sv *twig.SecurityViolation
+	if !errors.As(rs.Error(), &sv) {
+		return true, fmt.Errorf("the render failed but not with a security violation: %s; templates:%s", firstLine(rs.Err), showSources(tmS))
+	}
+	if rs.Out != "" {
+		return true, fmt.Errorf("output %s returned together with the security violation", q(rs.Out))
+	}
+	ra, _ := c06Run(tmS, c06NamedPolicy(c, true))
+	if ra.Failed() || ra.Out != ru.Out {
+		return true, fmt.Errorf("with every name allowed the sandboxed render gives %v, unsandboxed %v; templates:%s", ra, ru, showSources(tmS))
+	}
+	return true, nil
+}
+
+func TestC06Named(t *testing.T) {
+	r := NewRec(t, "C06", "second arm, exhaustive over (refused name x position) with no carrier and with each single carrier for 3 positions, plus generated chains: 27 built-in functions and filters (range, max, merge, upper, sort, default, escape, ...) refused by name in 15 value positions (print, if, set, for sequence with and without key / else / nested, ternary, filter argument, include-with value, macro argument, in, do, apply), and a name registered both as function and filter (the spy pair dual / the built-in pair merge) with only one of the two refused, used in both orders; oracle: security violation, no output, refused spy never ran; with the name allowed the output equals the unsandboxed one; non-trivial = the position is evaluated in the arrangement (measured with a spy)")
+	defer r.Flush()
+	run := func(c C06Case, rt *rapid.T) {
+		if !c06ValidChain(c.Carriers) {
+			return
+		}
+		live, err := checkC06Named(c)
+		cl := []string{"refuse:" + strings.Join(c.Refuse, ","), fmt.Sprintf("chain-length:%d", len(c.Carriers))}
+		if !live {
+			cl = append(cl, "not-live")
+		}
+		r.Case(fmt.Sprint(c), live, c.Occ+" refusing "+strings.Join(c.Refuse, ","), cl...)
+		if err != nil {
+			if rt != nil {
+				r.Fail(rt, "C06.named", c, err)
+			} else {
+				r.FailEnum(t, "C06.named", c, err)
+			}
+		}
+	}
+	var occs []C06Case
+	for _, b := range c06Builtins {
+		for _, p := range c06ExprPos {
+			if p.iterOnly && !b.iter {
+				continue
+			}
+			occs = append(occs, C06Case{Occ: strings.ReplaceAll(p.src, "V", "("+b.expr+")"), Refuse: []string{b.refuse}})
+			if p.iterOnly || p.name == "print" || p.name == "if-cond" {
+				// also without the parentheses (the bare call / filter chain as the tag's whole expression)
+				occs = append(occs, C06Case{Occ: strings.ReplaceAll(p.src, "V", b.expr), Refuse: []string{b.refuse}})
+			}
+		}
+	}
+	for _, o := range c06DualOccs {
+		name := "dual"
+		if strings.Contains(o, "merge") {
+			name = "merge"
+		}
+		occs = append(occs, C06Case{Occ: o, Refuse: []string{"f:" + name}}, C06Case{Occ: o, Refuse: []string{"|" + name}})
+	}
+	for _, o := range occs {
+		for _, custom := range []bool{false, true} {
+			c := o
+			c.Custom = custom
+			run(c, nil)
+			c.IncOpts = 3
+			run(c, nil)
+		}
+		for k := range c06CarrierNames {
+			c := o
+			c.Carriers = []int{k}
+			run(c, nil)
+		}
+	}
+	rapid.Check(t, func(rt *rapid.T) {
+		c := rapid.SampledFrom(occs).Draw(rt, "occ")
+		c.MainWrap = rapid.IntRange(0, 4).Draw(rt, "mainwrap")
+		c.IncOpts = rapid.IntRange(0, 3).Draw(rt, "incopts")
+		c.Custom = rapid.IntRange(0, 3).Draw(rt, "custom") == 0
+		n := rapid.IntRange(1, scale(3, 4)).Draw(rt, "ncarriers")
+		for i := 0; i < n; i++ {
+			c.Carriers = append(c.Carriers, rapid.IntRange(0, len(c06CarrierNames)-1).Draw(rt, "carrier"))
+		}
+		run(c, rt)
+	})
+}
+
 const c06Rule = "a forbidden spy filter or function written in one of 26 (filter) / 21 (function) syntactic positions, reached from `include 'inner' sandboxed` (optionally with/only, placed at top level, in a loop, condition, block or macro of the unsandboxed template) through a chain of 0-3 carriers out of 14 (include, include only, include with, extends with override, extends with the occurrence in the parent, parent(), import-as + call, from-import + call, local macro, apply, for, if, block, set) under DefaultSecurityPolicy or a harness policy type; non-trivial = the occurrence is live (the spy runs when the include is not sandboxed) and it is not the head of a print tag directly in the sandboxed template; distinct by case parameters"
 
 func TestC06Sandbox(t *testing.T) {
@@ -398,4 +576,5 @@ func TestC06Matrix(t *testing.T) {
 func init() {
 	reg("C06.sandbox", checkC06)
 	reg("C06.outside", checkC06Outside)
+	reg("C06.named", func(c C06Case) error { _, err := checkC06Named(c); return err })
 }
